@@ -53,11 +53,22 @@ RunChecks(r, run) ==
 
 Holds(c) == \A x \in DOMAIN c : c[x]
 FailedOf(c) == { x \in DOMAIN c : ~c[x] }
+\* A failing build table / run is printed (<<"REJECT", json>>) and counted, and validation goes on, so that one
+\* pass reports every disagreement; the trace is accepted iff nothing was rejected.
+SetToSeq(S) == LET RECURSIVE F(_) F(X) == IF X = {} THEN <<>> ELSE LET x == CHOOSE y \in X : TRUE IN <<x>> \o F(X \ {x}) IN F(S)
+RejectStatic(i) ==
+    PrintT(<<"REJECT", ToJson([index |-> i, run |-> 0, failed |-> SetToSeq(FailedOf(StaticChecks(Rec[i]))),
+                               expected |-> ToJson(AbsTab(Rec[i]))])>>) /\ TLCSet(3, TLCGet(3) + 1)
+RejectRun(i, kk) ==
+    LET r == Rec[i] IN
+    PrintT(<<"REJECT", ToJson([index |-> i, run |-> kk, failed |-> SetToSeq(FailedOf(RunChecks(r, r.runs[kk]))),
+                               expected |-> ToJson(RunExpectedLogs(r, ApplyWrites(RelTab(r), [bytes |-> r.tail, vals |-> Dflts(r)], r.runs[kk].writes, 1)))])>>)
+        /\ TLCSet(3, TLCGet(3) + 1)
 
 TraceInit ==
     /\ l = 1 /\ k = 0 /\ phase = "load"
     /\ bytes = <<>> /\ bytes0 = <<>> /\ tab = <<>> /\ vals = <<>> /\ meta = [dataStart |-> 0, cfgStart |-> 0] /\ npatch = 0
-    /\ TLCSet(1, 1) /\ TLCSet(2, 0)
+    /\ TLCSet(1, 1) /\ TLCSet(2, 0) /\ TLCSet(3, 0)
 TrLoad ==
     /\ phase = "load" /\ l <= Len(Rec)
     /\ Holds(StaticChecks(Rec[l]))
@@ -65,9 +76,15 @@ TrLoad ==
     /\ npatch' = 0 /\ UNCHANGED meta
     /\ phase' = "run" /\ k' = 1 /\ l' = l
     /\ TLCSet(2, 1)
+\* a build whose table is rejected is reported and its runs are skipped
+TrSkip ==
+    /\ phase = "load" /\ l <= Len(Rec)
+    /\ ~Holds(StaticChecks(Rec[l])) /\ RejectStatic(l)
+    /\ l' = l + 1 /\ UNCHANGED <<dsvars, k, phase>>
+    /\ TLCSet(1, l + 1)
 TrRun ==
     /\ phase = "run" /\ k <= Len(Rec[l].runs)
-    /\ Holds(RunChecks(Rec[l], Rec[l].runs[k]))
+    /\ IF Holds(RunChecks(Rec[l], Rec[l].runs[k])) THEN TRUE ELSE RejectRun(l, k)
     /\ LET st == ApplyWrites(tab, [bytes |-> bytes0, vals |-> Dflts(Rec[l])], Rec[l].runs[k].writes, 1) IN
            bytes' = st.bytes /\ vals' = st.vals
     /\ npatch' = Len(Rec[l].runs[k].writes)
@@ -78,18 +95,10 @@ TrNextBuild ==
     /\ l' = l + 1 /\ k' = 0 /\ phase' = "load"
     /\ UNCHANGED dsvars
     /\ TLCSet(1, l + 1) /\ TLCSet(2, 0)
-TraceNext == TrLoad \/ TrRun \/ TrNextBuild
+TraceNext == TrLoad \/ TrSkip \/ TrRun \/ TrNextBuild
 TraceSpec == TraceInit /\ [][TraceNext]_<<dsvars, l, k, phase>>
 
-\* the model's invariants hold along the replayed behaviour (regions in the rebased coordinates)
-TrInvDisjoint == InvDisjoint
-TrInvObserve == phase = "run" => InvObserve
-TrInvFrame == InvFrame /\ InvLen
-
 Accepted ==
-    IF TLCGet(1) = Len(Rec) + 1 THEN TRUE
-    ELSE LET r == Rec[TLCGet(1)] kk == TLCGet(2) IN
-         IF kk = 0 THEN Print(<<"FIRST-UNMATCHED", TLCGet(1), 0, FailedOf(StaticChecks(r)), ToJson(AbsTab(r))>>, FALSE)
-         ELSE Print(<<"FIRST-UNMATCHED", TLCGet(1), kk, FailedOf(RunChecks(r, r.runs[kk])),
-                      ToJson(RunExpectedLogs(r, ApplyWrites(RelTab(r), [bytes |-> r.tail, vals |-> Dflts(r)], r.runs[kk].writes, 1)))>>, FALSE)
+    /\ TLCGet(1) = Len(Rec) + 1 \/ Print(<<"FIRST-UNMATCHED", TLCGet(1), TLCGet(2)>>, FALSE)   \* could not be evaluated
+    /\ TLCGet(3) = 0 \/ Print(<<"REJECTED", TLCGet(3)>>, FALSE)
 =============================================================================
